@@ -12,7 +12,8 @@ def shapes(ctx):
     r = ctx.tlc("Gen_Shapes", vlib.cfg(constants={
         "MaxChains": 4, "MaxLen": 4 if not q else 3, "MaxSingle": 6 if q else 9,
         "PolyLens": {3, 4} if q else {3, 4, 5}, "MaxPolyLoops": 3 if q else 4,
-        "BigPoly": {13} if q else {12, 13, 14, 17}}, invariants=SHAPE_INV), workers=8, timeout=900)
+        "BigPoly": {13} if q else {12, 13, 14, 17}, "BigLax": {13} if q else {12, 13, 14, 16}},
+        invariants=SHAPE_INV), workers=8, timeout=900)
     ctx.replay(r.tagged.get("CASE", []))
 
 
@@ -39,7 +40,7 @@ def inner(rnd, xs, n):
 
 
 def grid_cfg(rnd, G, mode, op, families, faces, steps, kvs, with_cells=True, prove=False, nwin=3, edge=False, nq=12,
-             invariants=None):
+             invariants=None, origin=(0, 0)):
     S = 1 << G
     xs = window(rnd, S, nwin, force_edge=edge and rnd.random() < 0.5)
     ys = window(rnd, S, nwin, force_edge=edge and rnd.random() < 0.5)
@@ -47,7 +48,7 @@ def grid_cfg(rnd, G, mode, op, families, faces, steps, kvs, with_cells=True, pro
         "G": G, "Mode": '"%s"' % mode, "Op": '"%s"' % op, "Faces": set(faces),
         "XS": set(xs), "YS": set(ys), "XH": inner(rnd, xs, 3), "YH": inner(rnd, ys, 3),
         "Steps": set(steps), "StairN": {2, 3, min(5, S)}, "Families": "{" + ", ".join('"%s"' % f for f in families) + "}",
-        "KVs": set(kvs), "QSeed": rnd.randrange(1000), "NQ": nq, "Parts": 4, "WithCells": with_cells, "Prove": prove},
+        "KVs": set(kvs), "QSeed": rnd.randrange(1000), "NQ": nq, "Parts": 4, "OI": origin[0], "OJ": origin[1], "WithCells": with_cells, "Prove": prove},
         invariants=invariants or GRID_INV)
 
 
